@@ -69,6 +69,13 @@ func framePool(idx uint64) (frame []byte, label string) {
 	rng := lib.NewRand("C10.pool", k)
 	ft := lib.FileTypes[k%uint64(len(lib.FileTypes))].Type
 	o := lib.GenOpts{FileType: ft, Mesgs: lib.HostedMesgs(ft), Locals: 1 + rng.Intn(3), Redefine: 5, BigEndian: 50, Unknown: 20, Compressed: 10, NoTimeZero: true, MaxFields: 6, BigFileId: 15}
+	if k%11 == 7 {
+		// a well-formed frame whose file_id names a type without a container (manufacturer
+		// specific, unassigned, invalid): the decoding entry points refuse it - and what they
+		// read while doing so stays inside the frame like everything else
+		o.FileType = []byte{0xF7, 0xFE, 0, 100, 255, 0xF8, 0xFB}[k/11%7]
+		o.Mesgs = []uint16{20, 19, 18, 21, 23}
+	}
 	switch k % 6 {
 	case 0: // nothing after file_id
 		o.Records = 0
